@@ -2459,7 +2459,16 @@ def _unravel_key_to_tuple(key):
         return (key,)
     if not isinstance(key, tuple):
         return ()
-    return tuple(subk for k in key for subk in _unravel_key_to_tuple(k))
+    result = ()
+    for subkey in key:
+        if isinstance(subkey, str):
+            result = result + (subkey,)
+        else:
+            _key = _unravel_key_to_tuple(subkey)
+            if len(_key) == 0:
+                return ()
+            result = result + _key
+    return result
 
 
 def unravel_key(key):
@@ -2479,9 +2488,15 @@ def unravel_key(key):
     if isinstance(key, str):
         return key
     if isinstance(key, tuple):
-        if len(key) == 1:
-            return unravel_key(key[0])
-        return tuple(unravel_key(_key) for _key in key)
+        newkey = ()
+        for subkey in key:
+            if isinstance(subkey, str):
+                newkey = newkey + (subkey,)
+            else:
+                newkey = newkey + _unravel_key_to_tuple(subkey)
+        if len(newkey) == 1:
+            return newkey[0]
+        return newkey
     raise ValueError("the key must be a str or a tuple of str")
 
 
